@@ -243,6 +243,8 @@ func (g *Gateway) queryHandler(w http.ResponseWriter, r *http.Request) {
 				}, nil
 			}
 
+			applyVariableDefaults(operation, request)
+
 			planningContext := &planner.PlanningContext{
 				Request:    request,
 				Operation:  operation,
@@ -297,6 +299,57 @@ func (g *Gateway) queryHandler(w http.ResponseWriter, r *http.Request) {
 	// emit the response
 	results.Emit(w, rs.IsBatchMode)
 
+}
+
+// applyVariableDefaults completes the request variables with the defaults declared by the
+// operation. Sub-requests declare their variables anew from the positions they are used at,
+// so a default which is not turned into a value here would be lost downstream.
+func applyVariableDefaults(operation *ast.OperationDefinition, request *requests.Request) {
+	for _, vd := range operation.VariableDefinitions {
+		if vd.DefaultValue == nil {
+			continue
+		}
+		if _, ok := request.Variables[vd.Variable]; ok {
+			continue
+		}
+		value, err := defaultValue(vd.DefaultValue)
+		if err != nil {
+			continue
+		}
+		if request.Variables == nil {
+			request.Variables = make(map[string]interface{})
+		}
+		request.Variables[vd.Variable] = value
+	}
+}
+
+// defaultValue is ast.Value.Value for constant values, except that an empty list literal
+// stays an empty list instead of becoming null.
+func defaultValue(v *ast.Value) (interface{}, error) {
+	switch v.Kind {
+	case ast.ListValue:
+		list := make([]interface{}, 0, len(v.Children))
+		for _, child := range v.Children {
+			value, err := defaultValue(child.Value)
+			if err != nil {
+				return nil, err
+			}
+			list = append(list, value)
+		}
+		return list, nil
+	case ast.ObjectValue:
+		object := make(map[string]interface{}, len(v.Children))
+		for _, child := range v.Children {
+			value, err := defaultValue(child.Value)
+			if err != nil {
+				return nil, err
+			}
+			object[child.Name] = value
+		}
+		return object, nil
+	default:
+		return v.Value(nil)
+	}
 }
 
 func (g *Gateway) parseIntrospectionQuery(plan *planner.QueryPlan, request *requests.Request) *Result {
